@@ -88,6 +88,7 @@ Definition ddag (c : ccase) (ep : nat) (g : dag) : list string :=
   dlist (sort_strings (g_env g)) ++ [g_logDir g; g_defaultParams g] ++ dlist (g_params g) ++
   [string_of_nat (List.length (g_steps g))] ++ flat_map dstep (g_steps g) ++
   dostep (g_onExit g) ++ dostep (g_onSuccess g) ++ dostep (g_onFailure g) ++ dostep (g_onCancel g) ++
+  [dbool (is_some (g_smtp g)); dbool (is_some (g_errorMail g)); dbool (is_some (g_infoMail g))] ++
   [string_of_nat (List.length (g_preconditions g)); dbool (json_ok g);
    if Nat.eqb ep 0 then String.concat "" (map (cond_class c) (all_conditions g)) else ""].
 
